@@ -56,13 +56,28 @@ func main() {
 		w := bufio.NewWriterSize(f, 1<<20)
 		n := 0
 		seen := map[string]bool{}
-		g(tier, newRng(seed), func(c string) {
+		one := func(c string) {
 			if seen[c] {
 				return
 			}
 			seen[c] = true
 			fmt.Fprintf(w, "%s => %s\n", c, runCase(c))
 			n++
+		}
+		g(tier, newRng(seed), func(c string) {
+			one(c)
+			// every third operation program is run a second time through the OTHER API spelling of
+			// each operation that has one (dtype suffix @alt; the model is the same)
+			if strings.HasPrefix(c, "prog ") {
+				h := uint32(2166136261)
+				for i := 0; i < len(c); i++ {
+					h = (h ^ uint32(c[i])) * 16777619
+				}
+				if h%3 == 0 {
+					f := strings.SplitN(c, " ", 3)
+					one(f[0] + " " + f[1] + "@alt " + f[2])
+				}
+			}
 		})
 		w.Flush()
 		f.Close()
